@@ -124,11 +124,27 @@ class Rec4(_checks.Check):
         return self.match in creds.get('roles', [])
 
 
+class Rec4of3(Rec3):
+    """accepts the current rule although its base class does not"""
+    def __call__(self, target, creds, enforcer, current_rule=None):
+        Rec3.seen.append(('rec4', self.match, current_rule))
+        return self.match in creds.get('roles', [])
+
+
+class Rec3of4(Rec4):
+    """does not accept the current rule although its base class does"""
+    def __call__(self, target, creds, enforcer):
+        Rec3.seen.append(('rec3', self.match, 'n/a'))
+        return self.match in creds.get('roles', [])
+
+
 def _current_rule(ctx, rep):
     """Nested checks are told the name of the policy being enforced, not the alias."""
     saved = dict(_checks.registered_checks)
     _checks.registered_checks['rec3'] = Rec3
     _checks.registered_checks['rec4'] = Rec4
+    _checks.registered_checks['rec43'] = Rec4of3
+    _checks.registered_checks['rec34'] = Rec3of4
     try:
         n = ctx.n(150, 4000)
         for _ in range(n):
@@ -137,8 +153,10 @@ def _current_rule(ctx, rep):
             for i in range(depth):
                 inner = 'rule:c%d' % (i + 1)
                 rules['c%d' % i] = ctx.rng.choice([inner, 'not not ' + inner, '(%s and rec4:r1) or %s' % (inner, inner),
-                                                   'rec3:r0 and ' + inner, '%s or rec4:zz' % inner])
-            rules['c%d' % depth] = ctx.rng.choice(['rec4:r0', 'rec4:r0 and rec3:r0', 'not rec4:zz'])
+                                                   'rec3:r0 and ' + inner, '%s or rec4:zz' % inner,
+                                                   'rec34:r0 and ' + inner, '(%s and rec43:r1) or %s' % (inner, inner)])
+            rules['c%d' % depth] = ctx.rng.choice(['rec4:r0', 'rec4:r0 and rec3:r0', 'not rec4:zz',
+                                                   'rec3:r0 and rec43:r0 and rec4:r0', 'rec4:r0 and rec34:r0 and rec43:r0'])
             enf = impl.Enf()
             enf.set_rules(rules)
             start = 'c%d' % ctx.rng.randrange(depth + 1)
@@ -152,7 +170,7 @@ def _current_rule(ctx, rep):
             rep.stat('kind:current_rule')
             rep.case(key='cur' + repr(sorted(rules.items())) + start, nontrivial=True)
         rep.rules.append('%d alias chains (depth 1..8) ending in recording custom checks with 3- and 4-parameter call '
-                         'signatures: every recorded current_rule must be the enforced name' % n)
+                         'signatures (also subclasses whose signature differs from their base class): every recorded current_rule must be the enforced name' % n)
     finally:
         _checks.registered_checks.clear()
         _checks.registered_checks.update(saved)
